@@ -820,6 +820,27 @@ class C29(Spec):
             return {'family': 'int', 'cfg': cfg.to_json(), 'prog': prog, 'seed': seed}
         n = rng.randint(1, 12 if tier != 'quick' else 9)
         op = rng.choice(self.OPS)
+        if rng.random() < 0.08:
+            # points sorted by squared norm (a key that multiplies); whole-number points and others mixed
+            td = {'l': 24, 'f': 8}
+            nr = rng.randint(2, 6)
+            for _ in range(20):
+                xs, ys = [], []
+                for _r in range(nr):
+                    if rng.random() < 0.4:
+                        xs.append(_Fr(rng.randint(-6, 6)))
+                        ys.append(_Fr(rng.randint(-6, 6)))
+                    else:
+                        xs.append(_Fr(rng.randrange(-1535, 1536, 2), 256))
+                        ys.append(_Fr(rng.randrange(-1535, 1536, 2), 256))
+                nrm = [x * x + y * y for x, y in zip(xs, ys)]
+                if all(abs(a - b) > _Fr(8, 256) for i, a in enumerate(nrm) for b in nrm[:i]):
+                    break
+            else:
+                xs, ys = [_Fr(1), _Fr(3, 2)], [_Fr(0), _Fr(1, 256)]
+            prog = fxpfam.gen_rows(cfg, td, xs, ys, [['sorted_rows_norm', ['p', 'q'], ['x', 'y'], {'reverse': rng.random() < 0.3}]],
+                                   ['p', 'q'], sender=rng.randrange(cfg.m))
+            return {'family': 'fxp', 'cfg': cfg.to_json(), 'prog': prog, 'seed': seed}
         if rng.random() < 0.3 and op in ops6[:2] + ops6[3:6]:
             td = {'l': 24, 'f': 8}
             vals = [_Fr(rng.randint(-40, 40) * rng.choice((1, 1, 3)), rng.choice((1, 2, 4, 256))) for _ in range(n)]
